@@ -1,2 +1,227 @@
--- stub: replaced by the cluster engine driver
-def main : IO Unit := pure ()
+/-
+Line-protocol driver for the Cluster engine (C22, C23).
+Reply format: `<model>\t<spec>`; spec patterns: `*` anything, `a|b` alternatives, `pre*` prefix.
+
+Two op families share one model state:
+  p.*   pipeline ops, answered by `NoKV.Cluster` (`Pipeline.lean`) directly;
+  c.*   cluster ops: the raft-level schedule is not modelled, they answer `ok`; `c.verdict`
+        reads the block of pipeline-level events the harness observed on the real cluster
+        (file `$VERIF_CLUSTER_TRACE`, blocks separated by `--`) and replays it through the same
+        model, answering with the model's (resp. the specification's) output for every event.
+-/
+import Driver.Lib
+import NoKVModel.Cluster.Pipeline
+import NoKVModel.Cluster.Validate
+import NoKVModel.Cluster.ReadPath
+
+open NoKV NoKV.Cluster Driver
+
+structure St where
+  pc : PipeCfg := PipeCfg.good
+  vc : ValCfg := ValCfg.good
+  rc : ReadCfg := ReadCfg.good
+  sys : Sys := Sys.init
+  taken : List (Nat × Nat) := []            -- (store, waiter) whose result was collected
+  vals : List ((Nat × Nat) × String) := []  -- (store, region) ↦ register value
+  rdvals : List (Nat × String) := []        -- read call ↦ value seen by the applier
+  verdicts : Nat := 0
+
+def num (toks : List String) (i : Nat) : Nat := ((toks[i]?).bind String.toNat?).getD 0
+
+def validStore (s : Nat) : Bool := 1 ≤ s && s ≤ 3
+def validRegion (r : Nat) : Bool := 1 ≤ r && r ≤ 2
+
+def setCfg (st : St) (kv : String) : Option St :=
+  match kv.splitOn "=" with
+  | [k, v] =>
+    match k with
+    | "pipe.applyChecksProposer" => do let b ← boolOfString? v; pure { st with pc := { st.pc with matchProposer := b } }
+    | "pipe.completeDeletes" => do let b ← boolOfString? v; pure { st with pc := { st.pc with completeDeletes := b } }
+    | "pipe.registerRejectsDup" => do let b ← boolOfString? v; pure { st with pc := { st.pc with regRejectsDup := b } }
+    | "val.leaderOp" => do let o ← CmpOp.ofString? v; pure { st with vc := { st.vc with leaderOp := o } }
+    | "val.leaderConst" => do let s ← RaftState.ofString? v; pure { st with vc := { st.vc with leaderConst := s } }
+    | "val.rejectReturns" => do let b ← boolOfString? v; pure { st with vc := { st.vc with rejectReturns := b } }
+    | "read.readIndexFirst" => do let b ← boolOfString? v; pure { st with rc := { st.rc with readIndexFirst := b } }
+    | "read.waitsApplied" => do let b ← boolOfString? v; pure { st with rc := { st.rc with waitsApplied := b } }
+    | _ => some st     -- shape-guard facts without a model variant
+  | _ => none
+
+def insertNat (n : Nat) : List Nat → List Nat
+  | [] => [n]
+  | x :: xs => if n ≤ x then n :: x :: xs else x :: insertNat n xs
+
+def stateStr (p : PStore) : String :=
+  let ids := ((p.waiters.filter (·.inMap)).map (·.id)).foldr insertNat []
+  let pend := if ids.isEmpty then "-" else "+".intercalate (ids.map toString)
+  s!"seq={p.seq};pend={pend}"
+
+def entryStr (e : Entry) : String := s!"res={e.proposer}/{e.id}/{e.tag}"
+
+def findWaiter (p : PStore) (w : Nat) : Option Waiter := p.waiters.find? (·.w == w)
+
+def lookupVal (st : St) (s r : Nat) : String :=
+  match st.vals.find? (fun kv => kv.1 == (s, r)) with
+  | some kv => kv.2
+  | none => "-"
+
+/-- One pipeline-level op or event. `trace = true` additionally admits the observation-only
+events of a cluster run (`v.val`, `r.*`). Returns (state, model output, spec pattern). -/
+def pstep (trace : Bool) (st : St) (toks : List String) : St × String × String :=
+  let s := num toks 1
+  match toks.head? with
+  | some "p.next" =>
+    if !validStore s then (st, "bad-op", "bad-op") else
+    let (σ, id) := nextId st.sys s
+    ({ st with sys := σ }, s!"id={id}", "*")
+  | some "p.skip" =>
+    let n := num toks 2
+    if !validStore s || n < 1 || n > 100000 then (st, "bad-op", "bad-op") else
+    let p := st.sys.st s
+    ({ st with sys := st.sys.set s { p with seq := p.seq + n } }, s!"id={p.seq + n}", "*")
+  | some "p.reg" =>
+    if !validStore s || toks.length < 5 then (st, "bad-op", "bad-op") else
+    let id := num toks 2; let w := num toks 3; let tag := num toks 4
+    if (findWaiter (st.sys.st s) w).isSome then (st, "bad-op", "bad-op") else
+    if id == 0 then (st, "none", "*") else
+    let (σ, ok) := register st.pc st.sys s id w tag
+    -- a registration made through the direct op stands for a proposal of (s, id, tag)
+    let σ := if ok then { σ with proposed := σ.proposed ++ [⟨s, id, tag⟩] } else σ
+    ({ st with sys := σ }, if ok then "ok" else "dup", "*")
+  | some "p.apply" =>
+    if !validStore s || toks.length < 7 || !validRegion (num toks 2) || !validStore (num toks 4) then
+      (st, "bad-op", "bad-op") else
+    let r := num toks 2
+    let e : Entry := ⟨num toks 4, num toks 3, num toks 5⟩
+    let σ := if e.id == 0 then
+        -- completeProposal ignores id 0
+        st.sys.set s { st.sys.st s with alog := (st.sys.st s).alog ++ [e] }
+      else applyOne st.pc s st.sys e
+    let vals := if toks[6]? == some "ok" then ((s, r), toString e.tag) :: st.vals.filter (fun kv => kv.1 != (s, r)) else st.vals
+    ({ st with sys := σ, vals := if trace then vals else st.vals }, "ok", "ok")
+  | some "p.poll" =>
+    if !validStore s || toks.length < 3 then (st, "bad-op", "bad-op") else
+    let w := num toks 2
+    match findWaiter (st.sys.st s) w with
+    | none => (st, "none", "none")
+    | some x =>
+      if st.taken.contains (s, w) then (st, "closed", "closed") else
+      let own : Entry := ⟨s, x.id, x.tag⟩
+      let spec := if (st.sys.st s).alog.contains own then entryStr own ++ "|pending" else "pending"
+      match x.got with
+      | [] => (st, "pending", spec)
+      | e :: _ => ({ st with taken := (s, w) :: st.taken }, entryStr e, spec)
+  | some "p.rm" =>
+    if !validStore s || toks.length < 3 then (st, "bad-op", "bad-op") else
+    let id := num toks 2
+    ({ st with sys := if id == 0 then st.sys else remove st.sys s id }, "ok", "ok")
+  | some "p.state" =>
+    if !validStore s then (st, "bad-op", "bad-op") else
+    (st, stateStr (st.sys.st s), "*")
+  | some "v.val" =>
+    -- v.val store kind regionId metaFound epochOk keysOk peerPresent raftState
+    if !trace then (st, "bad-op", "bad-op") else
+    match (toks[8]?).bind RaftState.ofString? with
+    | none => (st, "bad-op", "bad-op")
+    | some rs =>
+      let i : ValIn := ⟨num toks 3, num toks 4 == 1, num toks 5 == 1, num toks 6 == 1, num toks 7 == 1, rs⟩
+      let out (c : ValCfg) : String := if proceeds c i then "served" else (validateCommand c i).toString
+      (st, out st.vc, out ValCfg.good)
+  | some "r.begin" => if !trace then (st, "bad-op", "bad-op") else (st, "ok", "ok")
+  | some "r.exec" =>
+    if !trace then (st, "bad-op", "bad-op") else
+    let v := lookupVal st s (num toks 2)
+    ({ st with rdvals := (num toks 3, v) :: st.rdvals }, "val=" ++ v, "*")
+  | some "r.end" =>
+    if !trace then (st, "bad-op", "bad-op") else
+    match st.rdvals.find? (fun kv => kv.1 == num toks 3) with
+    | some kv => (st, "val=" ++ kv.2, "*")
+    | none => (st, "err", "*")
+  | _ => (st, "bad-op", "bad-op")
+
+/-- does a model output satisfy a spec pattern (same language as the harness) -/
+def specAllows (spec out : String) : Bool :=
+  spec == "*" || (spec.splitOn "|").any fun alt =>
+    if alt.endsWith "*" then out.startsWith (alt.dropEnd 1).toString else alt == out
+
+def oraclesOk : String := "agree=ok,once=ok,lin=ok,run=ok"
+
+/-- replay one block of observed events; the spec string shows the model's output wherever
+that output satisfies the event's specification and `want:<pattern>` where it does not -/
+def replay (st : St) (lines : List String) : St × String × String :=
+  let (st, ms, ss) := lines.foldl (fun (acc : St × List String × List String) l =>
+    let (st, ms, ss) := acc
+    let (st', m, sp) := pstep true st (tokens l)
+    let shown := if specAllows sp m then m else "want:" ++ ((sp.splitOn "|").headD sp)
+    (st', m :: ms, shown :: ss)) (st, [], [])
+  let n := toString ms.length
+  (st, n ++ ":" ++ ",".intercalate ms.reverse ++ "#" ++ oraclesOk,
+       n ++ ":" ++ ",".intercalate ss.reverse ++ "#" ++ oraclesOk)
+
+def nthBlock (content : String) (k : Nat) : List String :=
+  let lines := (content.splitOn "\n").filter (· ≠ "")
+  let rec go (ls : List String) (k : Nat) (cur : List String) : List String :=
+    match ls with
+    | [] => if k == 0 then cur.reverse else []
+    | l :: rest =>
+      if l == "--" then (if k == 0 then cur.reverse else go rest (k - 1) [])
+      else go rest k (l :: cur)
+  go lines k []
+
+def clusterOp (toks : List String) : String :=
+  let a := num toks 1; let b := num toks 2
+  match toks.head? with
+  | some "c.campaign" => if validRegion a && validStore b then "ok" else "bad-op"
+  | some "c.tick" => if validRegion a && validStore b then "ok" else "bad-op"
+  | some "c.pump" => "ok"
+  | some "c.deliver" => "ok"
+  | some "c.drop" => "ok"
+  | some "c.dup" => "ok"
+  | some "c.iso" => if validStore a then "ok" else "bad-op"
+  | some "c.heal" => "ok"
+  | some "c.wait" => "ok"
+  | some "c.propose" => if validStore a && validRegion b then "ok" else "bad-op"
+  | some "c.read" => if validStore a && validRegion b then "ok" else "bad-op"
+  | some "c.probe" => if validStore a && toks.length ≥ 6 then "ok" else "bad-op"
+  | _ => "bad-op"
+
+def stepIO (st : St) (toks : List String) : IO (St × String) := do
+  match toks with
+  | "cfg" :: kvs =>
+    match kvs.foldlM setCfg st with
+    | some st' => pure (st', "ok")
+    | none => pure (st, "bad-cfg")
+  | ["c.verdict"] =>
+    let path := (← IO.getEnv "VERIF_CLUSTER_TRACE").getD ""
+    let content ← (try IO.FS.readFile path catch _ => pure "")
+    let block := nthBlock content st.verdicts
+    let (st', m, s) := replay st block
+    pure ({ st' with verdicts := st.verdicts + 1 }, m ++ "\t" ++ s)
+  | _ =>
+    match toks.head? with
+    | some h =>
+      if h.startsWith "c." then
+        let r := clusterOp toks
+        pure (st, r ++ "\t" ++ r)
+      else
+        let (st', m, s) := pstep false st toks
+        pure (st', m ++ "\t" ++ s)
+    | none => pure (st, "bad-op\tbad-op")
+
+partial def mainLoop (s : St) : IO Unit := do
+  let stdin ← IO.getStdin
+  let stdout ← IO.getStdout
+  let line ← stdin.getLine
+  if line.isEmpty then return ()
+  let toks := tokens line
+  match toks with
+  | ["reset"] =>
+    stdout.putStrLn "ok"
+    stdout.flush
+    mainLoop {}
+  | _ =>
+    let (s', out) ← stepIO s toks
+    stdout.putStrLn out
+    stdout.flush
+    mainLoop s'
+
+def main : IO Unit := mainLoop {}
